@@ -194,7 +194,7 @@ func runCheck(repo, verif, prop, tier string, timeout, par int, keep bool) int {
 		// a satisfiable canary implies that the exit is reachable
 		canarySat := false
 		for _, o := range r.Obls {
-			if o.Kind == "canary" && o.Verdict == "sat" {
+			if o.Kind == "canary" && (o.Verdict == "sat" || o.Verdict == "sat-ground") {
 				canarySat = true
 			}
 		}
@@ -214,7 +214,7 @@ func runCheck(repo, verif, prop, tier string, timeout, par int, keep bool) int {
 			solverTime += o.Time
 			if o.ExpectSat {
 				switch o.Verdict {
-				case "sat":
+				case "sat", "sat-ground":
 					vacuityOK++
 				case "unsat":
 					isBroken = fmt.Sprintf("vacuity guard %s is unsatisfiable: the contract of %s excludes every execution", o.Name, r.Key)
